@@ -68,7 +68,20 @@ CHECKS = {
     "C14": (False, EX, "", "", "", "4/C14"),
     "C15": (False, EX, "", "", "", "4/C15"),
     "C16": (False, EX, "", "", "", "4/C16"),
-    "C17": (False, MC, "", "", "", "4/C17"),
+    "C17": (
+        True, MC,
+        "pairs of step-transition systems advanced in lock step (shifted vs unshifted, scalar vs "
+        "constant schedule), exhaustive enumeration of schedule lengths and of every path of the "
+        "life-cycle automaton up to length 3",
+        "Every (configuration, node count, grid, shift) pair of runs is executed and compared state by "
+        "state; constant-array schedules must reproduce the scalar setting bitwise; every schedule "
+        "length 0..2n except n (n in {2,8,20}) must raise ValueError; every path of length <= 3 over "
+        "{rf, rf(density), interp, simulate} from a fresh object is executed for both classes and the "
+        "error / node-reproduction / fill-value clauses are checked after every call.",
+        "Shift tolerance = 200 x first-order rounding sensitivity of the steps (lagged nonlinear "
+        "diffusivity amplifies; measured worst 1.2x) + 1e-12|m_i|; interpolator clause on strictly "
+        "increasing grids.",
+        "4/C17"),
     "C18": (False, EX, "", "", "", "4/C18"),
     "C19": (False, EX, "", "", "", "4/C19"),
     "C20": (False, EX, "", "", "", "4/C20"),
